@@ -29,6 +29,16 @@ def is_int_ty(t):
     return t is not None and t.get("k") == "prim" and t["n"] in INT_TYS
 
 
+_INT_BITS = {"u8": 8, "u16": 16, "u32": 32, "u64": 64, "u128": 128, "usize": 64, "i8": 8, "i16": 16, "i32": 32, "i64": 64, "i128": 128, "isize": 64}
+
+
+def int_bits(t):
+    """Width in bits of a primitive integer type on the analysed (64-bit) target; None for anything else."""
+    if t is None or t.get("k") != "prim":
+        return None
+    return _INT_BITS.get(t["n"])
+
+
 def is_ptr_ty(t):
     return t is not None and (t.get("k") in ("ref", "ptr") or (t.get("k") == "adt" and t["def"] in ("alloc::boxed::Box", "core::ptr::NonNull")))
 
@@ -257,7 +267,16 @@ class Analysis:
             if c["def"] == "typenum::Unsigned::USIZE":
                 return ("I", self.tenv.length(c["args"][0]))
             if c["def"].startswith("typenum::Unsigned::"):
-                return ("I", self.tenv.length(c["args"][0]))
+                # U64 / USIZE (and wider) hold the length itself on a 64-bit target; the narrower and the signed constants (U8, U16, U32, I32, ISIZE ..)
+                # hold its low bits only - typenum computes them with wrapping shifts - so they are the length only when that is a known small number
+                L = self.tenv.length(c["args"][0])
+                nm = c["def"].split("::")[-1]
+                if nm in ("USIZE", "U64", "U128", "I128"):
+                    return ("I", L)
+                bits = {"U8": 8, "U16": 16, "U32": 32, "I8": 7, "I16": 15, "I32": 31, "I64": 63, "ISIZE": 63, "I128": 127}.get(nm)
+                if bits is not None and L.is_const() and 0 <= L.const_value() < (1 << bits):
+                    return ("I", L)
+                return ("I", Poly.atom(("trunc", nm, L)))
             if c["def"] == "core::num::<impl usize>::MAX" and ty.get("k") == "prim" and ty.get("n") == "usize":
                 return ("I", Poly.atom(("umax",)))  # every usize quantity is <= umax (poly axiom)
             if c.get("promoted") is not None:
@@ -442,6 +461,15 @@ class Analysis:
                 keep_len = v[3] if is_slice_ptr_ty(rv["ty"]) else None
                 return ("P", v[1], v[2], keep_len)
             if v[0] == "I":
+                # an integer cast to a narrower type keeps only the low bits: the result is the same number only when it is a constant that fits
+                # (or provably below the bound); otherwise it is a new quantity about which nothing is known but its range
+                fb, tb = int_bits(self.operand_ty(rv["op"])), int_bits(rv["ty"])
+                if fb is not None and tb is not None and tb < fb:
+                    if v[1].is_const() and 0 <= v[1].const_value() < (1 << (tb - (0 if rv["ty"]["n"].startswith("u") else 1))):
+                        return v
+                    if not rv["ty"]["n"].startswith("u"):
+                        return ("V", "trunc", tb, v)   # may be negative: not a quantity the prover's (non-negative) atoms can stand for
+                    return ("I", Poly.atom(("trunc", tb, v[1])))
                 return v
             if ck.startswith("PointerCoercion") and "Unsize" in ck:
                 ft = self.operand_ty(rv["op"])
@@ -745,6 +773,19 @@ class Analysis:
             return args[0]  # the provided body of by_ref is `self`: the same &mut to the iterator
         if fn.startswith("core::iter::Iterator::") and fn.split("::")[-1] in ITER_ADAPTORS:
             return ("V", "iter", fn.split("::")[-1]) + tuple(args)
+        if fn == "core::iter::zip" and len(args) == 2:
+            # the free function is `a.into_iter().zip(b)`: the receiver side as IntoIterator gives it, the other side handed on as Iterator::zip takes it
+            x = args[0]
+            t0 = targs[0] if targs else None
+            left = ("V", "iter", "into_iter", x)
+            if x[0] == "V" and len(x) > 1 and x[1] == "iter":
+                left = x
+            elif x[0] == "P" and x[3] is not None and t0 is not None and t0.get("k") == "ref" and t0["t"].get("k") == "slice":
+                left = ("V", "iter", "slice", x, bool(t0.get("mut")))
+            elif x[0] == "P" and t0 is not None and t0.get("k") == "ref" and is_ga(t0["t"]):
+                left = ("V", "iter", "slice", ("P", x[1], x[2], te.length(adt_args(t0["t"])[1])), bool(t0.get("mut")))
+            cs.no_effects = True
+            return ("V", "iter", "zip", left, args[1])
         if fn == "core::iter::IntoIterator::into_iter":
             x = args[0]
             if x[0] == "V" and len(x) > 1 and x[1] == "iter":
@@ -869,7 +910,11 @@ class Analysis:
             # unchanged Vec agree, and `into_boxed_slice` carries it over
             v = self.read_cell(st, args[0][1], (), None)
             cs.no_effects = True
+            if isinstance(v, tuple) and len(v) == 3 and v[:2] == ("V", "vecnew"):
+                return I(0)   # a Vec fresh from Vec::new / with_capacity holds nothing
             return ("I", Poly.atom(("vlen", v)))
+        if fn in ("alloc::vec::Vec::<T>::with_capacity", "alloc::vec::Vec::<T>::new"):
+            return ("V", "vecnew", (cs.bb,))
         if fn == "alloc::vec::Vec::<T, A>::into_boxed_slice" and args:
             return ("P", ("obj", ("ret", ("ret", cs.bb))), Poly.const(0), Poly.atom(("vlen", args[0])))
         if fn in ("core::result::Result::<T, E>::is_ok", "core::result::Result::<T, E>::is_err"):
@@ -1158,6 +1203,12 @@ class Analysis:
             if cs.modelled and r[0] == "A" and cs.fn.startswith(("core::result::Result::<T, E>::", "core::option::Option::<T>::", "core::ops::Try::", "core::ops::FromResidual::")):
                 cs.no_effects = True  # value-level plumbing
             self.apply_call_effects(st, cs, site)
+            if fn == "core::iter::Extend::extend" and cs.res.startswith("<alloc::vec::Vec<") and len(args) == 2 and args[0][0] == "P" and not args[0][2].t:
+                # Vec::extend appends: the new value's length is the old one plus at most what the pipeline can yield (poly axioms of `vlen`)
+                from .rules import pipe_max
+                old = self.read_cell(pre, args[0][1], (), None)
+                mx = pipe_max(self, args[1])
+                st.mem[(args[0][1], ())] = ("V", "vecext", old, mx, (bb,))
             if r is None:
                 r = self.init_value(("ret", bb), dest_ty, "ret")
             cs.ret = r
@@ -1426,7 +1477,7 @@ class Analysis:
         work = [0]
         iters = 0
         import time as _time
-        t_start = _time.time()
+        t_start = _time.process_time()
         budget = float(os.environ.get("GAV_ANALYSIS_BUDGET", "25"))
         # a process-wide allowance on top: once the analyses of one check have used it up, further bodies are not analysed at all (they would
         # be the pathological ones) - the check then ends with UNKNOWN verdicts instead of running for an unbounded time
@@ -1442,7 +1493,7 @@ class Analysis:
             if iters > 6000:
                 self.unknown.append(("fixpoint", None, "iteration bound"))
                 break
-            if _time.time() - t_start > budget:
+            if _time.process_time() - t_start > budget:
                 # a body whose fixpoint does not settle within the budget is NOT analysed: every rule that depends on it must say so
                 self.unknown.append(("fixpoint", None, "time bound (%ds) after %d iterations" % (budget, iters)))
                 break
@@ -1493,7 +1544,10 @@ class Analysis:
                     self.block_in[succ] = acc
                     if succ not in work:
                         work.append(succ)
-        _SPENT[0] += _time.time() - t_start
+        _SPENT[0] += _time.process_time() - t_start
+        if os.environ.get("GAV_TIMELOG"):
+            with open(os.environ["GAV_TIMELOG"], "a") as fh_:
+                fh_.write("%.2f %d %s\n" % (_time.process_time() - t_start, iters, self.body.get("key", "?") if isinstance(self.body, dict) else "?"))
         _poly.DEADLINE[0] = None
         if _poly.EXPIRED[0] != exp0 and not any(u and u[0] == "fixpoint" for u in self.unknown):
             self.unknown.append(("fixpoint", None, "time bound (%ds): proofs inside merges were cut short" % budget))
